@@ -236,7 +236,9 @@ func asm14RealExec(c *Ctx, op string) {
 	fl := func(n, body string) Entry {
 		return Entry{Name: n, Kind: 'f', Perms: 0644, Uid: 7, Gid: 7, Sec: 1e9, Content: []byte(body)}
 	}
-	ln := func(n, t string) Entry { return Entry{Name: n, Kind: 'L', Perms: 0777, Uid: 7, Gid: 7, Sec: 1e9, Link: t} }
+	ln := func(n, t string) Entry {
+		return Entry{Name: n, Kind: 'L', Perms: 0777, Uid: 7, Gid: 7, Sec: 1e9, Link: t}
+	}
 	sandboxOutside := filepath.Join(base, "outside")
 	filesets := map[string]Fileset{
 		"w0": {d(""), fl("file0", "zero"), d("d"), fl("d/inner0", "i0")},
@@ -620,9 +622,11 @@ func asm14ReuseExec(c *Ctx, op string) {
 	fl := func(n, body string) Entry {
 		return Entry{Name: n, Kind: 'f', Perms: 0644, Uid: 7, Gid: 7, Sec: 1e9, Content: []byte(body)}
 	}
-	ln := func(n, t string) Entry { return Entry{Name: n, Kind: 'L', Perms: 0777, Uid: 7, Gid: 7, Sec: 1e9, Link: t} }
+	ln := func(n, t string) Entry {
+		return Entry{Name: n, Kind: 'L', Perms: 0777, Uid: 7, Gid: 7, Sec: 1e9, Link: t}
+	}
 	filesets := map[string]Fileset{
-		"real": {d(""), d("out"), fl("marker-real", "r")},          // `out` is a real directory
+		"real": {d(""), d("out"), fl("marker-real", "r")},           // `out` is a real directory
 		"link": {d(""), ln("out", outside), fl("marker-link", "l")}, // `out` is a symlink to the outside
 		"leaf": {d(""), fl("leaf", "x")},
 	}
